@@ -38,6 +38,7 @@ def withWorkloadLocked (node : String) (id : Nat) (f : Wl R → M R Unit) : M R 
 /-- one workload inside the per-node loop: run the transaction under the workload lock and
 send one message. -/
 def removeOne (body : Wl R → M R Unit) (node : String) (id : Nat) : M R Unit := do
+  renew
   let ok ← attempt (withWorkloadLocked node id body)
   emit ⟨node, id, ok, none⟩
 
@@ -45,6 +46,7 @@ def removeOne (body : Wl R → M R Unit) (node : String) (id : Nat) : M R Unit :
 `failMsg`: RemoveWorkload sends one anonymous failure message when the node cannot be locked,
 DissociateWorkload sends nothing. -/
 def removeOnNode (body : Wl R → M R Unit) (failMsg : Bool) (node : String) (ids : List Nat) : M R Unit := do
+  renew
   let ok ← attempt (readStep "storeGetNode" node)
   if ok then forEach ids (removeOne body node)
   else if failMsg then emit ⟨"", 0, false, none⟩ else pure ()
